@@ -358,6 +358,9 @@ CORPUS["oct"] = CORPUS["oct"] + [
     "hist 2 2 ; assume 0 2 C le E 2 1 0 -1 1 -5 C le E 2 -1 0 1 1 -100 ; assume 0 1 C le E 2 -1 0 -1 1 268435457",
     "hist 2 2 ; assume 0 2 C le E 2 1 0 -1 1 -5 C le E 2 -1 0 1 1 -100 ; assume 0 1 C le E 2 -1 0 -1 1 1099511627776",
     "hist 2 2 ; assume 0 2 C le E 2 1 0 1 1 1 C eq E 2 1 0 -1 1 -1099511627776",
+    # tightening must keep the potential function valid: a later infeasible constraint was missed (fixed: graphdom-6)
+    "hist 3 2 ; assume 0 1 C lt E 2 -1 0 1 1 1 ; assume 1 1 C eq E 2 1 0 1 1 -1 ; assume 1 1 C le E 2 -1 0 1 1 0 ; join 2 1 0 ; q_entails 2 C le E 2 -1 0 1 1 1 ; join 2 0 1 ; q_entails 2 C le E 2 -1 0 1 1 1",
+    "P 1000 hist 3 2 ; assign 1 1 E 1 1 0 1 ; assume 0 2 C eq E 2 -1 0 -1 1 -1 C le E 2 1 0 -1 1 0 ; join 0 0 1 ; q_entails 0 C le E 2 1 0 -1 1 1",
 ]
 for _k in ("zone", "oct"):
     CORPUS[_k] = CORPUS[_k] + CORPUS["interval"]
